@@ -10,6 +10,7 @@ func init() {
 			o := sym.Options{AppendSpare: 1}
 			return []harnessCfg{
 				{Dir: "container", Func: "VerifC11MapSet", Opts: o},
+				{Dir: "container", Func: "VerifC11MapSetNaN", Opts: o},
 				{Dir: "container", Func: "VerifC11SortedSliceSet", Opts: o},
 				{Dir: "container", Func: "VerifC11SortedNew", Opts: o},
 				{Dir: "container", Func: "VerifC11RingBuffer", Opts: o},
@@ -21,6 +22,7 @@ func init() {
 					"MapSet[int]":                "histories of 1..4 operations over Add/Delete/Clear/Clone(+mutate clone)/Equal with symbolic values in 0..3; all observers (Len, Has with symbolic probe, Values, Range with early stop) compared with the abstract set for the set and its clone",
 					"SortedSliceSet[int]":        "construction from 0..2 values, histories of 0..3 operations over Add/Delete/Clear/Clone(+Add/Delete on the clone), values forked over 0..2 (every order pattern); observers incl. strict ascent of Values/Range; Equal against an independently built set",
 					"RingBuffer[int]":            "capacity 0..4, 1..6 operations over Push (symbolic non-zero values)/Clear; Range (early stop 0..3), ReverseRange, Len, Current compared with the last min(k,n) values",
+					"MapSet[float64]":            "one concrete scenario with a NaN element (a key not equal to itself): Add, Clear, Len, Values, Range, Equal",
 					"SortedSliceSet constructor": "0..5 arbitrary values in 0..3 in arbitrary order (duplicates anywhere), then one Delete; all observers",
 					"append":                     "every append inside the container code that has to grow gets 0 or 1 spare slots (aliasing through spare capacity is visible)",
 				}
@@ -29,11 +31,12 @@ func init() {
 				"MapSet[int]":                "histories of 1..4 operations over Add/Delete/Clear/Clone(+mutate clone)/Equal with symbolic values in 0..2; all observers compared with the abstract set for the set and its clone",
 				"SortedSliceSet[int]":        "construction from 0..2 values, histories of 0..2 operations over Add/Delete/Clear/Clone(+Add/Delete on the clone), values forked over 0..2; observers incl. strict ascent; Equal against an independently built set",
 				"RingBuffer[int]":            "capacity 0..3, 1..5 operations over Push (symbolic non-zero values)/Clear; Range (early stop), ReverseRange, Len, Current",
+				"MapSet[float64]":            "one concrete scenario with a NaN element (a key not equal to itself): Add, Clear, Len, Values, Range, Equal",
 				"SortedSliceSet constructor": "0..4 arbitrary values in 0..3 in arbitrary order (duplicates anywhere), then one Delete; all observers",
 				"append":                     "every growing append inside the container code gets 0 or 1 spare slots",
 			}
 		},
-		Outside:     []string{"element types other than int", "longer histories and larger capacities", "MapSetToString* and String (formatting)"},
+		Outside:     []string{"element types other than int (and the one float64/NaN scenario)", "longer histories and larger capacities", "MapSetToString* and String (formatting)"},
 		Assumptions: []string{"abstract models written in the harness: sorted duplicate-free slice; list of the last min(k,n) pushed values", "map iteration order: insertion order of the engine's association-list map (order independence of the set observers is asserted through membership, not position)"},
 		Stubs:       []string{"maps.clone (runtime linkname): shallow copy intrinsic", "slices.overlaps: element identity instead of uintptr comparison", "fmt.* (opaque)"},
 		Technique:   "SSA->SMT bounded symbolic execution of operation histories against abstract set/ring models (generic code instantiated at int)",
